@@ -511,7 +511,11 @@ class ImmutableVersion(dns.zone.Version):
         c.seek(target, False)
         left = c.prev()
         assert left is not None
-        c.next()  # skip over left
+        while left.value().is_glue():
+            # Occluded names beneath an earlier zone cut are not bounds.
+            left = c.prev()
+            assert left is not None
+        c.seek(left.key(), False)  # continue just after left
         while True:
             right = c.next()
             if right is None or not right.value().is_glue():
